@@ -203,6 +203,12 @@ Definition unigen_format_text (samples : list (list Z)) : string :=
   | [] => EmptyString
   | _ => join nl_s (map unigen_sample_text samples) +s+ nl_s
   end.
+(** [call_cmsgen_python]: ["v " + " ".join(sample_lits) + " 0"] per solution,
+    ['\n'.join(output_lines) + '\n'] (also without any line: then ["\n"]). *)
+Definition cmsgen_sample_text (ss : list Z) (sol : list bool) : string :=
+  "v " +s+ join sp (map string_of_Z (map (cms_lit sol) ss)) +s+ " 0".
+Definition cmsgen_format_text (ss : list Z) (sols : list (list bool)) : string :=
+  join nl_s (map (cmsgen_sample_text ss) sols) +s+ nl_s.
 Definition parse_sampler_text (s : string) : option (list (list Z * Z)) :=
   parse_sampler_output (lex_file s).
 
